@@ -19,6 +19,7 @@ unshare -m sh -c "
     ./check \$p > /tmp/par/$tag.\$p.log 2>&1
     echo \"== \$p rc=\$? \$(grep -c '^VIOLATION' /tmp/par/$tag.\$p.log) violation line(s)\"
     grep '^BROKEN\|^VIOLATION' /tmp/par/$tag.\$p.log | cut -c1-170 | sort | uniq -c | head -5
+    for r in /verif/replays/\$p-*.json; do [ -f \$r ] && python3 -c \"import json,sys; d=json.load(open(sys.argv[1])); print('   replay', d.get('kind'), 'oracle='+str(d.get('oracle')), 'class='+str(d.get('class')), str(d.get('failkind'))[:120], '|', str(d.get('detail'))[:200])\" \$r; done
   done
 "
 rm -rf $root
